@@ -8,7 +8,7 @@
 From Coq Require Import Permutation.
 From SC Require Import Base.Prelude Timeline.Timestamp Timeline.Segment Timeline.Mode Timeline.Own Timeline.Wrap
   Timeline.TimestampProofs Timeline.SegmentProofs Timeline.ShiftSumProofs Timeline.ModeProofs
-  Timeline.OwnProofs Timeline.WrapProofs Timeline.C18Judge Timeline.MoreProofs Timeline.C18JudgeProofs
+  Timeline.OwnProofs Timeline.OwnRefine Timeline.WrapProofs Timeline.C18Judge Timeline.MoreProofs Timeline.C18JudgeProofs
   Timeline.C18Table Gen.C18Funcs.
 
 (* timestamp comparison is the chronological total order and returns -1, 0 or 1 *)
@@ -203,6 +203,15 @@ Theorem C18_min_at_any_order : forall t ms ms', Permutation ms ms' ->
 Proof. exact min_at_any_order. Qed.
 Print Assumptions C18_min_at_any_order.
 
+(* the boolean relation the judge evaluates for MinAt is the index form of that conclusion *)
+Theorem C18_min_at_ok_of_loop : forall t ms ms', Permutation ms ms' ->
+  match min_at_loop t ms' None with
+  | None => min_at_ok t ms (None, 0) = true
+  | Some (m, g) => exists i, nth_error ms i = Some m /\ min_at_ok t ms (Some (Z.of_nat i), g) = true
+  end.
+Proof. exact min_at_ok_of_loop. Qed.
+Print Assumptions C18_min_at_ok_of_loop.
+
 (* ---- Sum under its exact guard: magnitudes of either sign, only the open (infinite) tails must
         add up to >= 0 (C18_sum_negative_tail_refuted shows the law fails otherwise) ---- *)
 Theorem C18_sum_is_pointwise_exact_guard : forall ls t,
@@ -337,6 +346,38 @@ Proof.
   split; [apply shift_never_writes_args|]. apply ext_read_slice; [apply shift_never_writes_args|exact Hok].
 Qed.
 Print Assumptions C18_shift_on_heap.
+
+(* ... and of modepb.Cut: the result modes read out of the final heap are those of the value model *)
+Theorem C18_mode_cut_own_refines : forall g t m h b a o h',
+  (m < List.length (mcells h))%nat -> slice_ok h (snd (mcell h m)) ->
+  mode_cut_own g t m h = (b, a, o, h') ->
+  (option_map (read_mode h') b, option_map (read_mode h') a, o) = mode_cut t (read_mode h m).
+Proof. exact mode_cut_own_refines. Qed.
+Print Assumptions C18_mode_cut_own_refines.
+(* headline for modepb.Cut on the heap: inside a segment, with a start time, the two results read as the
+   function before / from t, and every location of the entry heap is intact *)
+Theorem C18_mode_cut_on_heap : forall g t m h s mb ma h',
+  (m < List.length (mcells h))%nat -> slice_ok h (snd (mcell h m)) ->
+  mstart (read_mode h m) = Some s -> segs_wf (msegs (read_mode h m)) = true ->
+  mode_cut_own g t m h = (Some mb, Some ma, false, h') ->
+  (forall x, x < t -> mode_val (read_mode h' mb) x = mode_val (read_mode h m) x) /\
+  (forall x, t <= x -> mode_val (read_mode h' ma) x = mode_val (read_mode h m) x) /\
+  heap_ext h h' /\ read_mode h' m = read_mode h m.
+Proof.
+  intros g t m h s mb ma h' Hm Hok Hs Hwf R.
+  pose proof (mode_cut_own_refines g t m h _ _ _ _ Hm Hok R) as E. simpl in E. symmetry in E.
+  destruct (mode_cut_preserves t (read_mode h m) s Hs Hwf _ _ E) as (_ & _ & H1 & H2).
+  assert (X : heap_ext h h') by (pose proof (mode_cut_never_writes_args g t m h) as F; rewrite R in F; exact F).
+  split; [exact H1|]. split; [exact H2|]. split; [exact X|]. apply ext_read_mode; assumption.
+Qed.
+Print Assumptions C18_mode_cut_on_heap.
+
+(* ... and of modepb.Shift *)
+Theorem C18_mode_shift_own_refines : forall g d m h,
+  (m < List.length (mcells h))%nat -> slice_ok h (snd (mcell h m)) ->
+  read_mode (snd (mode_shift_own g d m h)) (fst (mode_shift_own g d m h)) = mode_shift d (read_mode h m).
+Proof. exact mode_shift_own_refines. Qed.
+Print Assumptions C18_mode_shift_own_refines.
 
 (* ---- tables generated from the tree under check (Gen/C18Funcs.v) ---- *)
 Theorem C18_funcs_all_modelled :
